@@ -35,7 +35,7 @@ use proptest::prelude::*;
 use serde::{Deserialize, Serialize};
 use serde_json::Value;
 
-type Audit = EngineAudit<EngineEvent<DataKind>, EngineOutput<u64, ExchangeId>>;
+pub type Audit = EngineAudit<EngineEvent<DataKind>, EngineOutput<u64, ExchangeId>>;
 type Tick = AuditTick<EngineAudit<EngineEvent<DataKind>, EngineOutput<u64, ExchangeId>>, EngineContext>;
 
 #[derive(Debug, Clone, Copy, PartialEq, Eq, Serialize, Deserialize)]
